@@ -46,6 +46,8 @@ def run(ctx):
             rows = vlib.read_ndjson(trace)
             ctx.cov["hostname_datagrams"] = sum(1 for r in rows if r.get("ev") == "CSend" and r["dst"] in (11, 12, 13))
             ctx.sample({"trace_head_default_validator": rows[:10]})
+    # one handler, two listeners: concurrent Handle loops must not change what is forwarded for somebody else's datagram
+    U.two_listeners(ctx, ["FwdAuthentic", "FwdOnce", "FwdComplete", "CreateOnlyValid", "CreateOnce"], 120 if q else 300)
     vlib.write_evidence(ctx, "model_checking",
                         "TLC explores all interleavings of the Handle loop, the association goroutines, clients, senders and "
                         "shutdown for the small constants; simulated behaviours (distinct as step sequences) are executed on the "
